@@ -128,6 +128,18 @@ class ModuleInfo:
         self.late_assign = []  # module-level `A.b = expr`
 
 
+class _DropAnnotations(ast.NodeTransformer):
+    """Annotated assignments are analysed as the plain assignments they are at run time (`x: T = v` -> `x = v`;
+    a bare `x: T` declares nothing)."""
+
+    def visit_AnnAssign(self, n):
+        self.generic_visit(n)
+        if n.value is None:
+            return ast.copy_location(ast.Pass(), n)
+        new = ast.Assign(targets=[n.target], value=n.value)
+        return ast.copy_location(new, n)
+
+
 class Program:
     def __init__(self, repo=None):
         self.repo = repo or REPO
@@ -153,7 +165,7 @@ class Program:
             h.update(raw)
             src = raw.decode('utf-8')
             try:
-                tree = ast.parse(src, filename=path)
+                tree = _DropAnnotations().visit(ast.parse(src, filename=path))
             except SyntaxError as e:
                 raise AnalysisError('syntax error in %s: %s' % (path, e))
             mi = ModuleInfo(m, path, src, tree)
